@@ -16,7 +16,9 @@ import vlib
 COQ_TARGET = "props/C18.v"
 THEOREMS = ["C18_loop_is_lex", "C18_loop_is_lex_plain", "C18_separator_step", "C18_newline_step", "C18_get_token", "C18_comment_step",
             "C18_comment_at_eof", "C18_layout_insensitive", "C18_fullwidth_command_char", "C18_dispatch_on_zen2han",
-            "C18_note_reader_partial", "C18_notes_layout_partial"]
+            "C18_note_reader_partial", "C18_notes_layout_partial",
+            "C18_read_note_local", "C18_read_rest_local", "C18_read_harmony_end_local", "C18_readers_local", "C18_loop_is_arm",
+            "C18_command_local", "C18_runs_loop", "C18_lex_compositional_partial"]
 DRIVERS = ["core"]
 RULE = ("programs = trees of 2..25 complete commands (notes with accidentals / lengths / ,q,v,t,o parameters / ties, rests, "
         "n-notes, l o v q t, < > ( ) ` \", loops with counts and ':', chords, tuplets, Sub blocks, macro definitions and uses, "
@@ -25,8 +27,10 @@ RULE = ("programs = trees of 2..25 complete commands (notes with accidentals / l
         "spelling through compile. non-trivial = distinct program with >= 3 commands whose random layouts contain a comment "
         "and a line break; plus the continued length (`c1 | ^1`, the tie over a bar line): spaces, tabs, bar lines and line breaks "
         "before a '^' continuation of a note / rest / l length compile like no blank at all")
-TRUSTED = ["reader contracts (a reader consumes exactly its command and stops before the separator) are proved only for the "
-           "loop's own arms and for lettered notes without comma parameters; for the other readers the law is exercised by the oracle, not proved"]
+TRUSTED = ["locality is proved for every reader and every arm of the loop (C18_command_local: a command read completely when only its first "
+           "separator follows is read the same in any text) and the lexer is compositional at command boundaries (C18_lex_compositional_partial); "
+           "what is NOT proved: that the isolated run of a command gives the same token for every separator and every line number (a finite "
+           "computation per command, exercised by the oracle), commands directly followed by a comment opener, commands that write to the log"]
 ASSUMES = ["layout is placed only BETWEEN complete commands, never inside one (not between a name and its '(', not inside a length) - except "
            "in the continued-length cases, where only the blanks the length reader documents (space, tab, bar line, line break before '^') are used",
            "expression-valued arguments are closed by ')' or ';' (`@5;`, `TEMPO=90;`); commands with an optional argument list are "
